@@ -45,6 +45,9 @@ def run(ctx):
     k1_before(ctx, "R1-diff-before-put", where, g, diff, put, "disk list is re-read and merged (under the mutex) before writing")
     k3_after(ctx, "R1-unlock-on-all-exits", where, g, lock, unlock, "after lock_names() every exit, normal or exceptional, passes _unlock_names()")
     k1_never_after(ctx, "R1-no-write-after-unlock", where, g, unlock, put + diff, "nothing is read/merged/written after the mutex was released")
+    # R5 (shared with C04-R2): a reader must never find a pack listed whose files were already moved away
+    obs = need(where, calling(g, attr={"_obsolete_packs", "_clear_obsolete_packs"}, recv="self"), "_obsolete_packs/_clear_obsolete_packs")
+    k1_before(ctx, "R5-publish-before-obsolete", where, g, put, obs, "the new pack-names is published before any listed pack is moved to / deleted from obsolete_packs (a concurrent reader that reloads finds the data)")
     setl = need(where, g.find(assigns_to("self._packs_at_load")), "assignment of _packs_at_load")
     k1_before(ctx, "R1-atload-after-put", where, g, put, setl, "_packs_at_load is refreshed only after the write succeeded")
     # provenance: the unpack of _diff_pack_names() binds name0; the put loop iterates name0; _packs_at_load = name0
